@@ -89,7 +89,10 @@ class Aggregation(keras.layers.Layer):
 
   @classmethod
   def from_config(cls, config, custom_objects=None):
-    model = keras.utils.legacy.deserialize_keras_object(
-        config.pop('model'), custom_objects=custom_objects
-    )
+    # The wrapped model can be a plain Keras (functional / sequential) model,
+    # which only the layer deserializer knows about.
+    model = keras.layers.deserialize(
+        config.pop('model'),
+        custom_objects=custom_objects,
+        use_legacy_format=True)
     return cls(model, **config)
